@@ -119,7 +119,10 @@ Theorem C09_source_facts :
   gen_domain_wildcard_strips_one_label = true /\ gen_domain_returns_bucket_head = true /\
   gen_domain_keys_are_lowercased = true /\ gen_parse_pattern_shape = true /\
   gen_sort_less = [src_sort_less; src_sort_less; src_sort_less] /\
-  gen_keyed_lookups_return_bucket_head = true.
+  gen_keyed_lookups_return_bucket_head = true /\
+  (* each AddRoute probes for the origin's existing entry and inserts inside one
+     write-lock region: the operation is one atomic step, as the model has it *)
+  gen_addroute_probe_and_insert_under_one_write_lock = [true; true; true].
 Proof. repeat split; reflexivity. Qed.
 Print Assumptions C09_source_facts.
 
